@@ -19,7 +19,8 @@ def run(name):
             out = "/tmp/scr/out-%s-%s" % (os.path.basename(wt), pr)
             e = dict(ENV, VERIF_REPO=wt, VERIF_OUT=out)
             t0=time.time()
-            r = subprocess.run(["/verif/check", pr, "--tier", "quick"], env=e, capture_output=True, text=True)
+            tier = meta.get("check_tier", "quick") if pr == prop else "quick"
+            r = subprocess.run(["/verif/check", pr, "--tier", tier], env=e, capture_output=True, text=True)
             first=""
             lines=r.stdout.splitlines()
             for i,ln in enumerate(lines):
